@@ -2,7 +2,7 @@
    the new texts, none of which the old lookup held.  Hence every text that had an id keeps exactly that id in
    everything the save writes (C07: existing references are not renumbered; C04: a new text gets an id of its own). *)
 From Coq Require Import String NArith List Bool Lia PeanoNat.
-From RC Require Import lib.Result lib.Bytes model.Str model.StrEditor model.RichCodec proofs.Layout_proofs proofs.C08_proofs.
+From RC Require Import lib.Result lib.Bytes model.Layout model.Str model.StrEditor model.RichCodec proofs.Layout_proofs proofs.C08_proofs.
 Import ListNotations.
 Local Open Scope list_scope.
 Local Open Scope N_scope.
@@ -202,4 +202,49 @@ Theorem growths_agree T U U' :
 Proof.
   intros HU HU' s Hk. destruct s as [|t]; [reflexivity|]. simpl in Hk. simpl.
   rewrite !id_stable_under_growth; [reflexivity | |]; intros Hc; [eapply HU | eapply HU']; eauto.
+Qed.
+
+(* ---- every string number the save writes denotes the text it was written for ------------------------------------------ *)
+
+(* the id the lookup gives a rich string reads back as that string (0 for "no string"), and lies inside the table *)
+Theorem id_by_str_resolves L s i :
+  N.of_nat (length (sl_by_id L)) <= 1000000 ->
+  id_by_str L s = Ok i ->
+  str_by_id L i = s /\ (i = 0 \/ (1 <= i /\ i <= N.of_nat (length (sl_by_id L)))).
+Proof.
+  intros Hsmall H. destruct s as [|t]; simpl in H.
+  - inversion H; subst i. split; [reflexivity | left; reflexivity].
+  - destruct (id_by_string (sl_by_id L) t) as [j|] eqn:E; [|discriminate]. inversion H; subst j. clear H.
+    destruct (id_by_string_sound _ _ _ E) as [H1 Hn].
+    assert (N.to_nat (i - 1) < length (sl_by_id L))%nat as Hlt by (apply nth_error_Some; congruence).
+    split.
+    + unfold str_by_id. replace (i =? 0) with false by (symmetry; apply N.eqb_neq; lia).
+      rewrite N.min_l by lia. rewrite Hn. reflexivity.
+    + right. lia.
+Qed.
+
+Lemma vints_single f ids : vints f (VPair (VNamed f (VList (map VInt ids))) VUnit) = ids.
+Proof.
+  unfold vints, vlist. cbn [vfield]. rewrite String.eqb_refl. induction ids; simpl; [reflexivity | f_equal; assumption].
+Qed.
+
+(* ... in particular for every switch name, sound path, unit name and location name of the emitted sections *)
+Theorem swnm_ids_are_valid L ss v :
+  N.of_nat (length (sl_by_id L)) <= 1000000 -> swnm_encode L ss = Ok v ->
+  Forall (fun i => i = 0 \/ (1 <= i /\ i <= N.of_nat (length (sl_by_id L)))) (vints "_switch_string_ids" v).
+Proof.
+  intros Hs H. unfold swnm_encode in H. inv_bind H as ids Hids Hk. inversion Hk; subst v.
+  rewrite vints_single.
+  apply Forall_forall. intros i Hi. destruct (mapM_in _ _ _ _ Hids Hi) as (k & s & Hn & Hf).
+  exact (proj2 (id_by_str_resolves L (s_name s) i Hs Hf)).
+Qed.
+
+Theorem loc_name_id_is_valid L l v :
+  N.of_nat (length (sl_by_id L)) <= 1000000 -> loc_encode L l = Ok v ->
+  str_by_id L (vint "_string_id" v) = l_name l /\
+  (vint "_string_id" v = 0 \/ (1 <= vint "_string_id" v /\ vint "_string_id" v <= N.of_nat (length (sl_by_id L)))).
+Proof.
+  intros Hs H. unfold loc_encode in H. inv_bind H as sid Hsid Hk. inv_bind Hk as fl Hfl Hk2. inversion Hk2; subst v.
+  match goal with |- context [vint "_string_id" ?x] => change (vint "_string_id" x) with sid end.
+  exact (id_by_str_resolves L (l_name l) sid Hs Hsid).
 Qed.
